@@ -20,7 +20,7 @@ SchedNext ==
   \/ ~ENABLED Progress /\
        \/ \E c \in Chans :
             \/ nsubs[c] < MaxSubs /\ SubBegin(c) /\ act' = [op |-> "Sub", p |-> c]
-            \/ UnsubBegin(c) /\ act' = [op |-> "Unsub", p |-> c]
+            \/ UnsubBegin(c, 1) /\ act' = [op |-> "Unsub", p |-> c]
             \/ RecvBegin(c) /\ act' = [op |-> "Recv", p |-> c]
        \/ \E s \in Senders : scount[s] < MaxSends /\ SendBegin(s, Val(s, scount[s] + 1)) /\ act' = [op |-> "Send", p |-> s]
 
@@ -36,7 +36,7 @@ Obs == [ inbox  |-> Len(inbox),
          chan   |-> [c \in Chans |-> [sub |-> cst[c], waiting |-> rst[c] = "waiting", got |-> Received(c)]] ]
 
 (* identity of a model state for the edge list: everything the guards depend on *)
-Key == <<inbox, cases, lock, spc, sval, nact, nsent, scount, cst, nsubs, buf, rst, dlog>>
+Key == <<inbox, cases, lock, spc, sval, nact, nsent, scount, cst, nsubs, ucall, buf, rst, dlog>>
 
 SchedView == <<Key, late, panic, whole, order>>
 
